@@ -106,6 +106,12 @@ func CouldMatchAny(pass *analysis.Pass, qs ...pattern.Pattern) bool {
 			}
 			return true
 		case pattern.IndexSymbol:
+			if node.Path == "" {
+				// Symbols without a package path live in the universe scope
+				// (builtins and predeclared types). The index doesn't track
+				// those, so we cannot use it to rule them out.
+				return true
+			}
 			if node.Type == "" {
 				return index.Object(node.Path, node.Ident) != nil
 			} else {
